@@ -20,6 +20,14 @@ both ways of giving the column count (`numColumns = nc` explicit, `numColumns = 
 re-batching of `TreeFn._iterate` (model `treeFn`) around row-preserving / row-count-changing functions.  Not stated as theorems (covered by the correspondence only):
 the container kind of the emitted columns, and the `TypeError` branch for unsupported containers.
 Known finding F-C19-assign (`Assign` + `batch_size`) is outside `_iterate`: see `Witness/C19.lean`.
+
+Round 10: `C19_pad_only_extends_last`, `C19_pad_rows_unchanged` (padding never touches a real row);
+`TreeFn._iterate` as a chain of lazy iterators with failing calls and `ignore_error`
+(`Model/RebatchGen.lean`: `treeFnGen`, `treeFnGenS` for functions with state): `C19_treefn_gen_total`,
+`C19_treefn_skip`, `C19_treefn_skip_carry`, `C19_treefn_skip_rows`, `C19_treefn_fail_noskip`,
+`C19_treefn_gen_stateless`, `C19_treefn_skip_stateful`, `C19_treefn_skip_carry_stateful`;
+`Properties/C19Pipe.lean`: `C19_skip_agrees_with_C12`; contrast witness
+`Witness/C19.lean: C19_skip_after_rebatch_witness`.
 -/
 namespace MlModel.C19
 open MlModel.Rebatch
